@@ -22,8 +22,9 @@ LEVEL_TEXT = ('Decides clauses C01-a..g: at each site that maps methods to per-m
               "does not depend on registration order; while compressing single-child chains a node takes over its child's handler only under a test, made in the same"
               ' iteration, that it has none of its own; a static pattern answers a match only on paths that establish a segment boundary (nothing left, or the next '
               'byte is `/`), so `/users` is not matched by `/users2`; a base node never gets a second param child: every append_child is preceded by a look-up that '
-              'found no matchable child (a param pattern being matched by any existing param child), and `children` grows nowhere else. Decides these clauses, not '
-              'segment-matching semantics over all route sets and paths.')
+              'found no matchable child (a param pattern being matched by any existing param child), and `children` grows nowhere else; mounting assigns the handler '
+              'of the node at the mount point only from a handler the mounted root has (never erases a registered one). Decides these clauses, not segment-matching '
+              'semantics over all route sets and paths.')
 
 METHODS = ["GET", "PUT", "POST", "PATCH", "DELETE", "OPTIONS"]
 
@@ -63,6 +64,7 @@ def run(ck, progs):
         ck.guard("C01-c REACH search", lambda: c01c(ck, prog))
         ck.guard("C01-d ORDER child order", lambda: c01d(ck, prog))
         ck.guard("C01-e GUARD handler kept", lambda: c01e(ck, prog, final_builder_view(prog)))
+        ck.guard("C01-h GUARD mount keeps handlers", lambda: mount_keeps_handlers(ck, prog, "C01-h GUARD mount keeps handlers"))
         ck.guard("C01-f GUARD segment boundary", lambda: c01f(ck, prog))
         ck.guard("C01-g INVARIANT one param child", lambda: c01g(ck, prog))
     ck.config = None
@@ -522,3 +524,23 @@ def c01g(ck, prog):
                 direct.append((g, c))
     ck.ob(R, "who:children-grow-only-in-append_child", not direct, direct[0][0].loc(direct[0][1].sp) if direct else ac.loc(None),
           "" if not direct else "%s grows `children` directly, bypassing append_child" % direct[0][0].key, how="no Vec growth on `.children` of a base node outside append_child", nontrivial=False)
+
+
+def mount_keeps_handlers(ck, prog, R):
+    """Mounting merges the mounted application's root node into the node at the mount point. A handler already registered
+    there (for the OPTIONS tree: the automatic preflight handler of the parent's own route) may be replaced by the mounted
+    root's handler, but never by *nothing*: in Node::merge_here the node's handler is assigned only on the edge where the
+    mounted root has one."""
+    mh = prog.method(r"^ohkami::router::base::Node$", "merge_here")
+    f = prog.inlined(mh, 1, r"$^")
+    n = 0
+    sites = [(bi, st.get("sp"), "self.handler = ..") for bi, st, agg in decision.field_stores(mh, "handler") if on_arg1(mh, st["p"])]
+    sites += [(c.bb, c.sp, "set_handler(..)") for c in mh.calls_to(r"base::Node::set_handler$") if re.match(r"^arg1$", decision.describe_deep(mh, c.args[0], 3))]
+    for bb, sp, what in sites:
+        n += 1
+        some = paths.has_fact(mh, prog, bb, lambda fa: fa.kind == "variant" and fa.allowed == {"Some"} and re.search(r"arg2\.handler", (decision.describe_deep(mh, fa.place, 4) if getattr(fa, "place", None) else "") + guards.describe_origin(mh, fa.steps))) is not None
+        ck.ob(R, "merge_here:handler-only-from-Some", some, mh.loc(sp),
+              "" if some else "merge_here assigns the node's handler (%s) on a path that has not established that the mounted root has a handler: mounting an application whose root has no handler for a method "
+              "erases the handler registered at the mount point (for OPTIONS, where overriding is allowed: the automatic preflight handler, so the preflight of the parent's own route answers 404)" % what,
+              how="%s under the Some edge of another_root.handler" % what)
+    ck.floor(R, "handler assignments in merge_here", n, 1)
